@@ -3,7 +3,9 @@ from bounded.cli_matrix import PROGRAMS, configs, run_cli_matrix
 from checks.common import CheckRun
 
 EXPLANATION = (
-    "K9. P tier: the call-site precondition of the (assumed) draftsman serialisation contract — every to_dict / to_string "
+    "K8/K9. P tier: on the real PlanEntityEmitter._configure_decider, for each comparator, the emitted condition (draftsman "
+    "constructors used by assumed contract) means `left CMP right` for all operand kinds and each operand keeps its wire "
+    "selection, incl. the mirrored constant-first form; the call-site precondition of the (assumed) draftsman serialisation contract — every to_dict / to_string "
     "call in cli.py and compile.py passes version=blueprint.version_tuple() — is discharged on the AST of the real files. B tier (bounded): the real CLIs (python -m dsl_compiler.cli, python -m dsl_compiler, compile.py) are run as "
     "subprocesses over {file, -i} x {string, --json} x {stdout, -o} x {default, --no-optimize, --power-poles, --name}; the "
     "emitted text is decoded with the standard library (base64 + zlib + JSON / JSON); every combinator must carry its "
@@ -15,6 +17,7 @@ EXPLANATION = (
 
 def run(tier):
     cr = CheckRun("C07", tier, "other", EXPLANATION, "DESIGN §4 C07")
+    cr.contracts(["contracts.c07"])
     from pyvc import guards
     for f in ("dsl_compiler/cli.py", "compile.py"):
         for m in ("to_dict", "to_string"):
